@@ -5,13 +5,15 @@ use std::io::{BufRead, BufReader, Write};
 use std::sync::atomic::{AtomicUsize, Ordering};
 use std::sync::Mutex;
 
-/// expected "out" may be {"kind":"any"} (any non-panicking outcome) or {"kind":"err"} (any Type/Range error)
+/// expected "out" may be {"kind":"any"} (any non-panicking outcome), {"kind":"err"} (any Type/Range error) or
+/// {"kind":"within","lo":a,"hi":b} (an integer-typed answer to a fractional quantity: a <= value <= b)
 pub fn matches(expected: &Value, observed: &Value) -> bool {
     let ek = expected["kind"].as_str().unwrap_or("");
     let ok_ = observed["kind"].as_str().unwrap_or("");
     match ek {
         "any" => matches!(ok_, "ok" | "type" | "range" | "syntax"),
         "err" => matches!(ok_, "type" | "range" | "syntax"),
+        "within" => ok_ == "ok" && observed["val"].as_i64().map_or(false, |v| expected["lo"].as_i64().map_or(false, |lo| lo <= v) && expected["hi"].as_i64().map_or(false, |hi| v <= hi)),
         "ratio" => ok_ == "ok" && ratio_ok(&observed["val"], &expected["n"], &expected["d"]),
         "ok" => ok_ == "ok" && (expected.get("val").is_none() || expected["val"] == observed["val"]),
         k => k == ok_,
